@@ -18,8 +18,20 @@ model keeps the history keys both state backends log and TLC checks the seek aga
 definition; an independent harness-side oracle recomputes it from the stored state updates), the
 transaction / block methods with INCLUDE_PROOF_FACTS must show proof_facts exactly on INVOKE objects.
 v0.8 / v0.9 get the same request without the parameter and must agree on the shared fields.
+What a reverted block leaves behind: the model keeps the history buckets of both state backends (entries per
+state-diff section, deployment and declaration heights) and answers the state methods from them; besides the
+base alphabet there is one scenario per state-diff section IN ISOLATION (storage overwrite / clearing / zero
+onto zero, nonce only, replace_class only, deploy only, deploy + nonce, declare Cairo-0 / Sierra, migrated
+compiled class) whose three block variants (S for target 1 / S for target 2 / empty diff) make every fork
+shape a chain. Residue switches "Revert leaves section S's entries behind" (RpcRead_x_*.cfg) must each be
+refuted by TLC; their counterexamples and a depth-first walk over every chain of every scenario are replayed
+as directed scripts on both state backends and the three API versions in every run, the replayer reading
+every height by number and hash after every mutator against the fold of the stored state updates.
 """
+import concurrent.futures
 import json
+import os
+import re
 import vlib
 
 FAMILY = "chain"
@@ -98,6 +110,86 @@ def dropped_hash_reads(behaviours):
     return out
 
 
+# residue switches of RpcRead.tla x the scenario in which TLC must refute them (RpcRead_x_<kind>_<scenario>.cfg)
+RESIDUES = [("n:stor", "stor"), ("n:stor0", "clear"), ("n:stor0", "zz"), ("n:nonce", "nonce"), ("n:repl", "repl"),
+            ("n:decl", "decl0"), ("n:decl", "decl1"), ("l:decl", "decl0"), ("l:decl", "decl1"),
+            ("l:stor", "stor"), ("l:relog", "stor"), ("l:relog", "nonce"), ("l:relog", "repl")]
+SCENARIOS = ["stor", "clear", "zz", "nonce", "repl", "deploy", "depacc", "decl0", "decl1", "mig"]
+STATE_READS = ("getStorageAt", "getNonce", "getClassHashAt", "getClassAt", "getClass", "getStateUpdate")
+
+
+def _retry_oom(fn, *a, **kw):
+    """A TLC JVM killed by the kernel on a loaded machine ends with an empty message: run it once more."""
+    try:
+        return fn(*a, **kw)
+    except vlib.Broken as e:
+        if "TLC failed" not in str(e) or "Error" in str(e) or "rror:" in str(e):
+            raise
+        vlib.log("TLC died without a message (killed?), once more: %s" % (a[2] if len(a) > 2 else ""))
+        return fn(*a, **kw)
+
+
+def residue_mutants(ctx, pool):
+    """Expected-violation configurations: one residue switch each (they depend on the specification only and
+    run beside everything else). Returns [(kind, scenario, cfg, future)]."""
+    futs = []
+    for kind, sc in RESIDUES:
+        cfg = "RpcRead_x_%s_%s.cfg" % (kind.replace(":", ""), sc)
+        futs.append((kind, sc, cfg, pool.submit(
+            _retry_oom, ctx.tlc_check, FAMILY, "MCRpcReadHist.tla", cfg, workers=2, timeout=900, expect_violation=True,
+            label="residue switch %s in scenario %s (violation expected)" % (kind, sc))))
+    return futs
+
+
+def counterexamples(futs):
+    """The counterexample of every residue switch as a behaviour of the replayer's format (the trace alias
+    MCRpcReadHist!TraceAlias prints one JSON record per state)."""
+    out = []
+    for kind, sc, cfg, f in futs:
+        r = f.result()
+        if r["ok"] or r["violated"] != "ReadsAnswerFromChainStrict":
+            raise vlib.Broken("%s: the model in which a Revert leaves %s behind is not refuted by a read (%s): the "
+                              "scenario %s or the read alphabet no longer observes that section" % (cfg, kind, r["violated"], sc))
+        steps = []
+        for line in r["out"].splitlines():
+            m = re.match(r'^j = (".*")\s*$', line)
+            if m:
+                steps.append(json.loads(json.loads(m.group(1))))
+        names = [s["a"]["name"] for s in steps]
+        if len(steps) < 4 or names[0] != "Init" or "Revert" not in names or names[-1] not in STATE_READS:
+            raise vlib.Broken("%s: cannot read the counterexample (%d states: %s)" % (cfg, len(steps), names))
+        if any(s.get("scn") != sc for s in steps):
+            raise vlib.Broken("%s: counterexample outside scenario %s" % (cfg, sc))
+        out.append(steps)
+    return out
+
+
+def scenario_shapes(behaviours):
+    """Per section scenario: behaviours in which the block carrying the section for target 1 (variant 0 right
+    after the setup block) is reverted and replaced by another variant, and how many reads of a state method or
+    getStateUpdate by number or hash such a replacement chain then gets from the specification."""
+    out = {}
+    for b in behaviours:
+        sc = b[0].get("scn", "base") if b else "base"
+        if sc == "base":
+            continue
+        had, replaced, reads = False, False, 0
+        for s in b:
+            n = s["a"]["name"]
+            ch = s["chain"]
+            if n == "Store" and ch[:2] == [0, 0]:
+                had = True
+            if n == "Store" and had and len(ch) >= 2 and ch[1] != 0:
+                replaced = True
+            if replaced and n in STATE_READS and s["a"]["id"]["k"] in ("num", "hash") and len(ch) >= 2 and ch[1] != 0:
+                reads += 1
+        d = out.setdefault(sc, {"behaviours": 0, "section_block_replaced": 0, "reads_on_replacement_by_number_or_hash": 0})
+        d["behaviours"] += 1
+        d["section_block_replaced"] += replaced
+        d["reads_on_replacement_by_number_or_hash"] += reads
+    return out
+
+
 def run(ctx):
     binary = ctx.build_engine(ENGINE, stubs=True)
     if ctx.replay:
@@ -108,10 +200,23 @@ def run(ctx):
         return ctx.finish("model_checking", "replay of one recorded behaviour")
 
     thorough = not ctx.quick()
+    pool = concurrent.futures.ThreadPoolExecutor(max_workers=int(os.environ.get("VERIF_TLC_PARALLEL", "4")))
+    try:
+        return _run(ctx, binary, thorough, pool)
+    finally:
+        pool.shutdown(wait=True, cancel_futures=True)
+
+
+def _run(ctx, binary, thorough, pool):
+    # 0. beside everything else: the residue switches (each must be refuted) and the section scenarios as-is
+    mutants = residue_mutants(ctx, pool)
+    hist = pool.submit(_retry_oom, ctx.tlc_check, FAMILY, "MCRpcRead.tla",
+                       "RpcRead_hist_thorough.cfg" if thorough else "RpcRead_hist_quick.cfg", workers=4 if thorough else 2,
+                       timeout=3000, label="RpcRead as-is, every state-diff section in isolation (<=%d blocks)" % (4 if thorough else 3))
 
     # 1. the specification: the code as it is (known deviations excepted) and the repaired design
-    ctx.tlc_check(FAMILY, "MCRpcRead.tla", "RpcRead_quick.cfg", timeout=900, label="RpcRead as-is (<=3 blocks)")
-    ctx.tlc_check(FAMILY, "MCRpcRead.tla", "RpcRead_fixed.cfg", timeout=900, label="RpcRead repaired (<=3 blocks)")
+    _retry_oom(ctx.tlc_check, FAMILY, "MCRpcRead.tla", "RpcRead_quick.cfg", timeout=900, label="RpcRead as-is (<=3 blocks)")
+    _retry_oom(ctx.tlc_check, FAMILY, "MCRpcRead.tla", "RpcRead_fixed.cfg", timeout=900, label="RpcRead repaired (<=3 blocks)")
     # the strict property must FAIL on the as-is model: the exception is not vacuous
     r = ctx.tlc_check(FAMILY, "MCRpcRead.tla", "RpcRead_strict_asis.cfg", timeout=600, expect_violation=True,
                       label="RpcRead as-is vs strict property (must be violated)")
@@ -133,7 +238,34 @@ def run(ctx):
         ctx.tlc_check(FAMILY, "MCRpcRead.tla", "RpcRead_thorough_fixed.cfg", timeout=3000,
                       label="RpcRead repaired (<=4 blocks)")
 
-    # 2. binding: behaviours from TLC -simulate, replayed on the real stack
+    # 2a. binding, directed: the counterexample of every residue switch and the walk over every chain of every
+    #     section scenario, on both state backends, the replayer sweeping every height after every mutator
+    cex = counterexamples(mutants)
+    walk_cfg, walk_len = ("RpcRead_walk_thorough.cfg", 79) if thorough else ("RpcRead_walk.cfg", 25)
+    walks = ctx.tlc_simulate(FAMILY, "RpcReadMBT.tla", walk_cfg, depth=(walk_len * 3 + 1) * len(SCENARIOS), seed=ctx.seed, timeout=900)
+    if sorted(b[0].get("scn") for b in walks) != sorted(SCENARIOS) or any(
+            len([s for s in b if s["a"]["name"] in ("Store", "Revert")]) != walk_len for b in walks):
+        raise vlib.Broken("RpcReadMBT!WalkNext: expected one walk of %d mutators per scenario, got %s" % (
+            walk_len, [(b[0].get("scn"), len(b)) for b in walks]))
+    dres = ctx.run_engine(binary, TEST, {"behaviours": cex + walks, "first": 0, "huge": MAXLEN + 1, "sweep": "all",
+                                         "backends": ["legacy", "newstate"]}, timeout=3000)
+    ctx.absorb(dres, ENGINE, TEST)
+    dstats = dres.get("stats", {})
+    ctx.coverage["directed"] = {"residue_counterexamples": len(cex), "walks": len(walks),
+                                "steps": dres.get("steps", 0), "wall_s": dres.get("_wall_s"),
+                                "sweeps": dstats.get("sweeps", 0), "sweep_requests": dstats.get("sweep:requests", 0),
+                                "sweep_answers_with_data": dstats.get("sweep:answers_with_data", 0)}
+    if not ctx.violations:
+        if dstats.get("sweeps", 0) < 2 * walk_len * len(SCENARIOS) or dstats.get("sweep:answers_with_data", 0) < 20000:
+            raise vlib.Broken("directed replay is vacuous: %s sweeps, %s sweep answers with data" % (
+                dstats.get("sweeps", 0), dstats.get("sweep:answers_with_data", 0)))
+        quiet = [m for m in STATE_READS if dstats.get("sweep:data:" + m, 0) == 0]
+        if quiet:
+            raise vlib.Broken("directed replay is vacuous: the sweep never got data from %s" % quiet)
+    hist.result()
+    ctx.coverage["residue_switches_refuted"] = ["%s/%s" % m[:2] for m in mutants]
+
+    # 2b. binding: behaviours from TLC -simulate, replayed on the real stack
     nruns = 8 if thorough else 2
     per_run = 260 if thorough else 80
     behaviours = []
@@ -143,10 +275,13 @@ def run(ctx):
     res = ctx.run_engine(binary, TEST, {"behaviours": behaviours, "first": 0, "huge": MAXLEN + 1}, timeout=3000)
     ctx.absorb(res, ENGINE, TEST)
     ctx.coverage["steps_replayed"] = res.get("steps", 0)
+    ctx.coverage["simulated_replay_wall_s"] = res.get("_wall_s")
     ctx.coverage["calls_slower_than_the_watchdog_time_that_did_return"] = res.get("stats", {}).get("slow_calls", 0)
     ctx.coverage["behaviours_generated"] = len(behaviours)
     shapes = shape_counts(behaviours)
     ctx.coverage.update(shapes)
+    scen = scenario_shapes(behaviours)
+    ctx.coverage["section_scenarios"] = scen
     # the gated in-flight round: torn answers are outside what C08 states (it quantifies over stored chains,
     # not over schedules) - reported as observations, never as verdicts
     obs = res.get("stats", {}).get("observations", {})
@@ -200,10 +335,16 @@ def run(ctx):
                 short, {k: need[k] for k in short}))
     ctx.coverage["response_flags"] = {k: v for k, v in sorted(res.get("stats", {}).items())
                                       if k.startswith(("lub", "pf:", "flags:", "flagged_"))}
-    if res.get("stats", {}).get("lub_oracle_disagrees_with_spec", 0):
+    for rr, which in ((res, "simulated"), (dres, "directed")):
+        if rr.get("stats", {}).get("fold_oracle_disagrees_with_spec", 0):
+            raise vlib.Broken("the harness-side oracle (fold of the stored state updates) disagrees with what RpcRead.tla "
+                              "demands in %d reads of the %s behaviours: specification and concretisation are out of step"
+                              % (rr["stats"]["fold_oracle_disagrees_with_spec"], which))
+    if res.get("stats", {}).get("lub_oracle_disagrees_with_spec", 0) or dres.get("stats", {}).get("lub_oracle_disagrees_with_spec", 0):
         raise vlib.Broken("the harness-side oracle of last_update_block (stored state updates) disagrees with "
                           "RpcRead!DLubIn in %d requests: specification and concretisation are out of step"
-                          % res["stats"]["lub_oracle_disagrees_with_spec"])
+                          % (res.get("stats", {}).get("lub_oracle_disagrees_with_spec", 0)
+                             + dres.get("stats", {}).get("lub_oracle_disagrees_with_spec", 0)))
     ctx.assumptions += [
         "FFI stubs stand in for the Rust VM/compiler (read methods never call them; a call aborts loudly)",
         "blocks are built by chainkit through the real Simulate/SanityCheckNewHeight/Store; the hash and "
